@@ -143,6 +143,8 @@ class ContractDB:
         self.assumed = {}
         self.lemmas = {}
         self.specs = {}
+        self.tables = {}
+        self.constants = {}
         self.samplers = {}
         self.files = []
         for f in sorted(glob.glob(os.path.join(self.dir, "*.py"))):
@@ -153,6 +155,11 @@ class ContractDB:
         tree = ast.parse(src, filename=f)
         self.files.append(f)
         for n in tree.body:
+            if isinstance(n, ast.Assign) and len(n.targets) == 1 and isinstance(n.targets[0], ast.Name):
+                try:
+                    self.constants[n.targets[0].id] = ast.literal_eval(n.value)
+                except (ValueError, SyntaxError):
+                    pass
             if not isinstance(n, ast.FunctionDef):
                 continue
             for d in n.decorator_list:
@@ -164,6 +171,12 @@ class ContractDB:
                     if s.name in self.specs:
                         raise SyntaxError("duplicate spec " + s.name)
                     self.specs[s.name] = s
+                elif isinstance(d, ast.Call) and isinstance(d.func, ast.Name) and d.func.id == "tables":
+                    # finite data obligations over the literal class-level tables of a class (evaluated exhaustively)
+                    target = ast.literal_eval(d.args[0])
+                    kw = {k.arg: ast.literal_eval(k.value) for k in d.keywords}
+                    c = Contract("tables", target, n, f, kw.pop("props", []), kw)
+                    self.tables[target + "#" + n.name + str(n.lineno)] = c
                 elif isinstance(d, ast.Call) and isinstance(d.func, ast.Name) and d.func.id in ("contract", "assumed", "lemma"):
                     target = ast.literal_eval(d.args[0])
                     kw = {k.arg: ast.literal_eval(k.value) for k in d.keywords}
@@ -174,7 +187,7 @@ class ContractDB:
                     tab[target] = c
 
     def for_property(self, pid):
-        cs = [c for c in self.contracts.values() if pid in c.props]
+        cs = [c for c in self.contracts.values() if pid in c.props] + [c for c in self.tables.values() if pid in c.props]
         ls = [c for c in self.lemmas.values() if pid in c.props]
         return cs, ls
 
